@@ -286,6 +286,9 @@ impl Builder {
         if let Some(tag) = self.rsdpv2.as_ref() {
             byte_refs.push(tag.as_bytes().as_ref());
         }
+        if let Some(tag) = self.network.as_ref() {
+            byte_refs.push(tag.as_bytes().as_ref());
+        }
         if let Some(tag) = self.efi_mmap.as_ref() {
             byte_refs.push(tag.as_bytes().as_ref());
         }
